@@ -1027,6 +1027,16 @@ def e6_none_safety(ctx) -> None:
             if hosts:
                 fn = hosts[0]
         none_related = "None" in msg or "Optional[" in msg
+        if code == "arg-type":
+            # only when None is what separates the given type from the expected one ("X | None" given where "X" is expected): a union that is
+            # wider in another member as well (a callable chosen by a conditional expression) is a typing matter, not a missing value
+            mt = _re.search(r'has incompatible type "([^"]*)"; expected "([^"]*)"', msg)
+            if mt:
+                def parts(t_):
+                    t_ = _re.sub(r"Optional\[(.*)\]", r"\1 | None", t_)
+                    return {x.strip() for x in t_.split("|")}
+                given, expected = parts(mt.group(1)), parts(mt.group(2))
+                none_related = (given - expected) == {"None"}
         if fn is not None and fn in scope and code == "attr-defined" and not none_related and "has no attribute" in msg:
             n += 1
             ctx.fail("E6", fn, None, f"the type checker finds an attribute access that the static type does not support ({msg}) at line {line} of consume-reachable code: for a value of "
